@@ -85,7 +85,7 @@ ADDENDA = {
     "C06": " Mutations include crafted format heads (brotli/zstd/lz4/gzip/zlib window and content-size fields); each stage of the subscriber chain is guarded separately; the N part runs under a whole-world allocation guard.",
     "C08": " N part (peer-loss): raw peers of every role fail through the real stack (CONNECTION_CLOSE, silent death found by the idle timeout, STOP_SENDING/RESET_STREAM, finish-and-drop, stalled then dead) while surviving subscribers/requestors are judged exactly; a failed replier must be replaceable by a retrying library replier.",
     "C11": " A replier that sent an odd frame and is kept bound must keep being read (frames left in a bound replier's stream at quiescence are a lost wake-up).",
-    "C12": " Seventh fault class: a second close landing between the re-registration and its answer (a connection error, hence recoverable).",
+    "C12": " Seventh fault class: a second close landing between the re-registration and its answer (a connection error, hence recoverable). Second family (re-registration-observer): the real client against a recording stub server; every registration frame after a connection loss must equal the first (topic, retention, operations).",
     "C13": " Clock-free part, stated as such: the items of the configured schedule are also compared one by one with the law in u128 nanoseconds (count, numbering, exact value, saturation, cap), because a virtual clock cannot tell 600 years from 10^20 years.",
     "C15": " Third server identity: the trusted certificate presented as a PEM full-chain file that also carries the other CA (12 pairings); in a third of the runs the generated set was renewed in place over longer files.",
     "C16": " The close goes through the server's topic::Sender wrapper while another copy of the sender is alive; the N smoke also runs with a registration genuinely in flight (zero-window peer).",
